@@ -132,6 +132,14 @@ def bounded(tier, seed):
                 viol.append({"clause": "D", "input": {"text": s}, "got": r})
             if ellipses(r) != r:
                 viol.append({"clause": "rewrite_idempotent", "input": {"text": s}, "got": ellipses(r), "want": r})
+    # dots that are NOT a three-dot run (spaced dots, two dots, dots split by other characters) are never touched
+    for s0 in ("a . . . b", "wait . . . what", ". . .", "a. . .b", "a .. b", "a . b . c", "x .. . y", "so. . . then", "a ... b", "a. .. b", "1 . . . 2"):
+        r = ellipses(s0)
+        evals += 1
+        if "..." not in s0 and r != s0:
+            viol.append({"clause": "only_three_dot_runs", "input": {"text": s0}, "got": r, "want": s0})
+        elif "..." in s0 and not Drel(s0, r):
+            viol.append({"clause": "D", "input": {"text": s0}, "got": r})
     docs = D.documents(seed, 60 if tier == "quick" else 600, hazards=False)
     docs += ["wait... what... `a...b` <span title=\"x...\"> [l...](http://x/...) {% t a=\"...\" %}\n", "```\ncode...\n```\n\ntext...\n",
              "| a... | b |\n|---|---|\n| ... | c...d |\n", "# Head... ing\n\nend...\n",
